@@ -1502,3 +1502,79 @@ func ruleLoadGating(c *Ctx, r *Report, rule string) {
 		r.ok(rule, "LoadProg", fmt.Sprintf("%d uses of the program after Load, all under err == nil", uses))
 	}
 }
+
+// ruleDisasmGated: the listing of a program runs only when the step that produced the program succeeded.
+func ruleDisasmGated(c *Ctx, r *Report, rule string) {
+	r.rule(rule, 1, "every call of Prog.disasm is dominated by `err == nil` for the error of the step that built the program (parse, Load): a program left incomplete by a failed step has positions, constants or a line table that do not cover its code, and listing it indexes out of range; when the test lives in a helper that is handed the error, the helper must be called after the step with that error (a `defer helper(prog, err)` evaluates err before the step has run)")
+	n := 0
+	for _, it := range c.sortedDecls() {
+		fn, ok := it.obj.(*types.Func)
+		if !ok || it.fd.Body == nil || fn.Pkg() == nil || fn.Pkg().Path() != bclPath {
+			continue
+		}
+		fd := it.fd
+		ast.Inspect(fd.Body, func(x ast.Node) bool {
+			call, ok := x.(*ast.CallExpr)
+			if !ok || c.calleeName(call) != "Prog.disasm" {
+				return true
+			}
+			n++
+			key := fmt.Sprintf("%s/disasm#%d", funcName(fn), n)
+			var gate types.Object
+			for _, f := range splitFacts(c.factsAt(fd.Body, call)) {
+				be, isB := stripParens(f.Cond).(*ast.BinaryExpr)
+				if !isB || !isNilIdent(be.Y) || (be.Op == token.EQL) != f.Pos {
+					continue
+				}
+				if o := c.objOfExpr(be.X); o != nil && isErrorType(o.Type()) {
+					gate = o
+				}
+			}
+			if gate == nil {
+				r.bad(rule, key, "Prog.disasm is called without a dominating test that the error of the step that built the program is nil", c.pos(call.Pos()))
+				return true
+			}
+			// the error is a parameter: every call site must pass the step's error, after the step
+			pidx := -1
+			if fd.Type.Params != nil {
+				k := 0
+				for _, f := range fd.Type.Params.List {
+					for _, nm := range f.Names {
+						if c.infoFor(nm).Defs[nm] == gate {
+							pidx = k
+						}
+						k++
+					}
+				}
+			}
+			if pidx < 0 {
+				r.ok(rule, key, "under "+gate.Name()+" == nil")
+				return true
+			}
+			bad := ""
+			sites := 0
+			for _, jt := range c.sortedDecls() {
+				if jt.fd.Body == nil {
+					continue
+				}
+				ast.Inspect(jt.fd.Body, func(y ast.Node) bool {
+					ds, isDefer := y.(*ast.DeferStmt)
+					if isDefer && c.callee(ds.Call) == types.Object(fn) {
+						sites++
+						bad = c.pos(ds.Pos()) + ": deferred with the error as an argument: the argument is evaluated when the defer statement runs, before the step"
+						return false
+					}
+					if cs, isCall := y.(*ast.CallExpr); isCall && c.callee(cs) == types.Object(fn) {
+						sites++
+						if pidx >= len(cs.Args) || c.objOfExpr(cs.Args[pidx]) == nil || !isErrorType(c.typeOf(cs.Args[pidx])) {
+							bad = c.pos(cs.Pos()) + ": the helper is not handed an error variable"
+						}
+					}
+					return true
+				})
+			}
+			r.check(bad == "" && sites > 0, rule, key, fmt.Sprintf("under %s == nil; %d call sites hand it the step's error", gate.Name(), sites), "the listing is gated by a parameter, but "+bad, c.pos(call.Pos()))
+			return true
+		})
+	}
+}
